@@ -1,6 +1,6 @@
 """Per-property rule sets (DESIGN section 5)."""
 from .model import model
-from .rules import sig, fwd, misc, kern
+from .rules import sig, fwd, misc, kern, kern2d, iterspace
 
 ALL_PY = ['dtaidistance.dtw', 'dtaidistance.dtw_ndim', 'dtaidistance.ed', 'dtaidistance.dtw_barycenter',
           'dtaidistance.subsequence.subsequencealignment', 'dtaidistance.subsequence.subsequencesearch',
@@ -10,14 +10,11 @@ ALL_PY = ['dtaidistance.dtw', 'dtaidistance.dtw_ndim', 'dtaidistance.ed', 'dtaid
 
 def _tmp(ctx):
     m = model(ctx.repo)
-    for F in kern.load_kernels(m):
-        kern.rule_band(ctx, F)
-        kern.rule_recurrence(ctx, F)
-        kern.rule_prune(ctx, F)
-        kern.rule_psi(ctx, F)
-        kern.rule_clamp(ctx, F)
-        if F.lang == 'c':
-            kern.rule_dom_c(ctx, F)
+    iterspace.rule_iter_python(ctx, m)
+    iterspace.rule_iter_c_serial(ctx, m)
+    iterspace.rule_omp(ctx, m)
+    iterspace.rule_iter_pyx(ctx, m)
+    iterspace.rule_mp_order(ctx, m)
 
 
 PROPS = {'T00': (_tmp, 'scratch')}
